@@ -15,8 +15,14 @@ import (
 	"github.com/attestantio/go-eth2-client/spec/altair"
 	"github.com/attestantio/go-eth2-client/spec/bellatrix"
 	"github.com/attestantio/go-eth2-client/spec/phase0"
+	vouchmock "github.com/attestantio/vouch/mock"
+	mockaccountmanager "github.com/attestantio/vouch/services/accountmanager/mock"
+	mockattestationaggregator "github.com/attestantio/vouch/services/attestationaggregator/mock"
+	mockbeaconcommitteesubscriber "github.com/attestantio/vouch/services/beaconcommitteesubscriber/mock"
 	standardcache "github.com/attestantio/vouch/services/cache/standard"
+	standardcontroller "github.com/attestantio/vouch/services/controller/standard"
 	nullmetrics "github.com/attestantio/vouch/services/metrics/null"
+	mockproposalpreparer "github.com/attestantio/vouch/services/proposalpreparer/mock"
 	"github.com/attestantio/vouch/services/scheduler/advanced"
 	"github.com/attestantio/vouch/verifmc/mc"
 	"github.com/attestantio/vouch/verifmc/mcontext"
@@ -235,14 +241,111 @@ func c18Units(tier string) []hx.Unit {
 		}
 		units = append(units, u)
 	}
+	units = append(units, c18CtrlUnit())
 	return units
+}
+
+// The controller is the cache's other feeder (it hands block events on and is given the cache as its setter): the real
+// controller on the real cache, with the real scheduler and chain time.  4 slots per epoch, started at the beginning of
+// epoch 2 (slot 8).  The chain: the blocks on which this and the next epoch's duties depend sit in slot 2 / 3 and slot
+// 6 / 7 (the last slots of their epochs are empty or not), blocks in slot 8 and 10, the block of slot 9 arrives or is
+// missing.  Validator 2 proposes in slot 10 and a proposal delay is configured, so that the controller looks at the
+// head before proposing.  Afterwards the cache is asked for every root the chain has.
+func c18CtrlUnit() hx.Unit {
+	st := &c18State{}
+	u := hx.Unit{Name: "C18/controller-feeds-cache", Cfg: mc.Config{Deviation: true, Horizon: int64(20 * c03SlotDur)}, Bound: 0}
+	u.Body = func() {
+		*st = c18State{}
+		ctx, cancel := mcontext.WithCancel(context.Background())
+		defer cancel()
+		depLast := mc.Choose(2) == 1 // the dependent blocks sit in the last slot of their epoch
+		with9 := mc.Choose(2) == 1   // the block of slot 9 arrives
+		st.log = append(st.log, fmt.Sprintf("dependent-blocks-in-last-slot=%v block-of-slot-9=%v", depLast, with9))
+		hr := func(s phase0.Slot) phase0.Root { return root(byte(100 + s)) }
+		prevDep, curDep := root(1), root(2)
+		truth := map[phase0.Root]phase0.Slot{prevDep: 2, curDep: 6, hr(8): 8, hr(10): 10}
+		if depLast {
+			truth[prevDep], truth[curDep] = 3, 7
+		}
+		if with9 {
+			truth[hr(9)] = 9
+		}
+		parents := map[phase0.Root]phase0.Root{curDep: prevDep, hr(8): curDep, hr(9): hr(8), hr(10): hr(8)}
+		if with9 {
+			parents[hr(10)] = hr(9)
+		}
+		hp := &c18Headers{slots: truth, parents: parents, heads: []phase0.Root{hr(8)}}
+		ct := newChainTime(-(int64(2*c03SPE) * int64(c03SlotDur)), c03SlotDur, c03SPE)
+		sched, err := advanced.New(ctx, advanced.WithLogLevel(zerolog.Disabled), advanced.WithMonitor(&nullmetrics.Service{}))
+		must(err)
+		ev := &eventsProvider{}
+		cch, err := standardcache.New(ctx, standardcache.WithLogLevel(zerolog.Disabled), standardcache.WithMonitor(&nullmetrics.Service{}), standardcache.WithChainTime(ct),
+			standardcache.WithScheduler(sched), standardcache.WithEventsProvider(ev), standardcache.WithSignedBeaconBlockProvider(c18Blocks{hp}), standardcache.WithBeaconBlockHeadersProvider(hp))
+		must(err)
+		w := &c03World{attKinds: [2]string{"E", "E"}, propKinds: [2]string{"A", "A"}, reorgAt: -1}
+		byIndex := map[phase0.ValidatorIndex]*hAccount{}
+		for i := 1; i <= 3; i++ {
+			byIndex[phase0.ValidatorIndex(i)] = newAccount("W", fmt.Sprintf("v%d", i), byte(i))
+		}
+		ctrl, err := standardcontroller.New(ctx,
+			standardcontroller.WithLogLevel(zerolog.Disabled), standardcontroller.WithMonitor(nullmetrics.New()),
+			standardcontroller.WithSpecProvider(&specProvider{m: baseSpec(c03SlotDur, c03SPE)}), standardcontroller.WithChainTimeService(ct),
+			standardcontroller.WithProposerDutiesProvider(w), standardcontroller.WithAttesterDutiesProvider(w),
+			standardcontroller.WithSyncCommitteeDutiesProvider(vouchmock.NewSyncCommitteeDutiesProvider()), standardcontroller.WithEventsProvider(ev),
+			standardcontroller.WithValidatingAccountsProvider(&accountsTable{byIndex: byIndex}), standardcontroller.WithProposalsPreparer(mockproposalpreparer.New()),
+			standardcontroller.WithScheduler(sched), standardcontroller.WithAttester(w), standardcontroller.WithBeaconBlockProposer(w),
+			standardcontroller.WithBeaconCommitteeSubscriber(mockbeaconcommitteesubscriber.New()), standardcontroller.WithAttestationAggregator(mockattestationaggregator.New()),
+			standardcontroller.WithAccountsRefresher(mockaccountmanager.NewRefresher()),
+			standardcontroller.WithBlockToSlotSetter(cch), standardcontroller.WithBeaconBlockHeadersProvider(hp), standardcontroller.WithSignedBeaconBlockProvider(c18Blocks{hp}),
+			standardcontroller.WithMaxAttestationDelay(c03Delay), standardcontroller.WithAttestationAggregationDelay(8*time.Second), standardcontroller.WithMaxProposalDelay(4*time.Second))
+		must(err)
+		ev.handlers["block"] = append(ev.handlers["block"], ctrl.HandleBlockEvent) // vouch's main wires the block events to the controller as well
+		deliver := func(s phase0.Slot) {
+			mc.Sleep(ct.StartOfSlot(s).Sub(mc.Base).Nanoseconds() + int64(time.Second) - mc.Now())
+			if _, ok := truth[hr(s)]; !ok {
+				return
+			}
+			hp.heads = []phase0.Root{hr(s)}
+			ev.deliver("block", &apiv1.BlockEvent{Slot: s, Block: hr(s)})
+			ev.deliver("head", &apiv1.HeadEvent{Slot: s, Block: hr(s), PreviousDutyDependentRoot: prevDep, CurrentDutyDependentRoot: curDep})
+		}
+		for s := phase0.Slot(8); s <= 10; s++ {
+			deliver(s)
+		}
+		mc.Sleep(int64(c03SlotDur))
+		// every root the chain has: the slot the cache gives is that block's
+		for _, r := range []phase0.Root{prevDep, curDep, hr(8), hr(9), hr(10)} {
+			want, ok := truth[r]
+			if !ok {
+				continue
+			}
+			got, err := cch.BlockRootToSlot(ctx, r)
+			if (err != nil || got != want) && st.fail == "" {
+				st.key = "controller-fed-wrong-slot"
+				st.fail = fmt.Sprintf("after the controller handled the head and block events of slots 8-10 and looked at the head before proposing in slot 10 (%s), the cache gives slot %d (error %v) for the block of slot %d", st.log[0], got, err, want)
+			}
+		}
+		st.miss = 1
+	}
+	u.Check = func(r *mc.Result) mc.Verdict {
+		v := mc.Verdict{Outcome: "controller feeds cache", Nontrivial: true, Sample: strings.Join(st.log, " ")}
+		if r.Panic != "" {
+			v.Violation, v.Key = "panic: "+firstLine(r.Panic), "C18/panic"
+		} else if st.miss == 0 {
+			v.Violation, v.Key = "the run did not finish", "C18/controller-run-incomplete"
+		} else if st.fail != "" {
+			v.Violation, v.Key = st.fail, "C18/"+st.key
+		}
+		return v
+	}
+	return u
 }
 
 func init() {
 	hx.Register(&hx.Prop{
 		ID:    "C18",
 		Title: "A block root always maps to that block's slot",
-		Rule: "all operation sequences up to the depth bound (quick 4, thorough 6) over {block event, head event, lookup with working provider, lookup with failing provider} x 3 roots, each the parent of the next with missed slots in between (slots exactly on the retention boundary of the first and of the second clean run, and one slot ahead of vouch's clock at the start) and {clean run}, on the real cache service (started while the chain head moves from the second to the third block between requests) with the real scheduler and chain time on a virtual clock; compared with a reference map after every step; " +
+		Rule: "all operation sequences up to the depth bound (quick 4, thorough 6) over {block event, head event, lookup with working provider, lookup with failing provider} x 3 roots, each the parent of the next with missed slots in between (slots exactly on the retention boundary of the first and of the second clean run, and one slot ahead of vouch's clock at the start) and {clean run}, on the real cache service (started while the chain head moves from the second to the third block between requests) with the real scheduler and chain time on a virtual clock; compared with a reference map after every step; plus the real controller feeding the real cache (block events handed on, the cache as the controller's setter, a proposal delay so that the controller looks at the head before proposing; dependent blocks in or before the last slot of their epoch, the previous slot's block arriving or missing): afterwards the cache gives every block of the chain its own slot; " +
 			"non-trivial = the sequence contains a lookup miss or a clean run; distinct = distinct (miss, clean, length) classes",
 		Assumptions:   []string{"single caller (overlap of lookups and events is C17)", "block events carry the block's true slot"},
 		Units:         c18Units,
